@@ -10,6 +10,6 @@ if [ "$1" = "-e" ]; then sed -i -e "$2" "$D/repo/$3" || exit 3; shift 3; else (c
 (cd "$D/repo" && diff -ru /repo/src src | head -${MUT_DIFF_LINES:-30})
 if [ -n "$MUT_SUITE" ]; then VERIF_REPO="$D/repo" "$V/repotest.sh" 2>&1 | tail -3; fi
 for id in $(echo "$1" | tr , ' '); do
-VERIF_REPO="$D/repo" VERIF_DIR="$D/verifout" sh -c "mkdir -p $D/verifout && cp $V/known_findings.txt $D/verifout/ && ln -s $V/harness $D/verifout/harness && ln -s $V/bin $D/verifout/bin && $V/bin/verif check $id --tier ${2:-quick}" 2>&1 | grep -v '^    ' | tail -${MUT_TAIL:-6}
+VERIF_REPO="$D/repo" VERIF_DIR="$D/verifout" sh -c "mkdir -p $D/verifout && cp $V/known_findings.txt $D/verifout/ && ln -sfn $V/harness $D/verifout/harness && ln -sfn $V/bin $D/verifout/bin && $V/bin/verif check $id --tier ${2:-quick}" 2>&1 | grep -v '^    ' | tail -${MUT_TAIL:-6}
 echo "exit=$?"
 done
